@@ -296,6 +296,11 @@ func C13(r *ev.Report) {
 func init() {
 	Parts["C13"] = Part{"C13", C13}
 	Replayers["C13"] = func(c Case) (bool, string) {
+		switch c["op"] {
+		case "Add", "Subtract", "Multiply", "Square", "Invert", "Pow", "SetUInt64", "Zero", "One", "MinusOne", "Add(nil)", "Subtract(nil)", "Multiply(nil)", "Set(nil)", "NewScalar":
+			return Replayers["C06"](c)
+		}
+
 		if c["op"] == "persist" {
 			return Replayers["C10"](c)
 		}
